@@ -388,6 +388,14 @@ def r10_4(ctx, m):
     out_param = next((p_ for p_ in cf.params if "out" in p_ and "ind" not in p_), None)
     if out_param is None:
         raise AnalysisError("R10.4", cf.where(), "cannot identify the output path parameter of the entry point")
+    # nothing else is written to the path of the index: an opener of the output that is told to write a file of its own
+    # (`BGZFile(out, "wb", index=...)`: pysam's block index, dumped when the handle is closed, after the pickled index)
+    idx_paths = {norm(a_.value) for a_ in walk_own(cf.node) if isinstance(a_, ast.Assign) and len(a_.targets) == 1 and isinstance(a_.targets[0], ast.Name) and "ind" in a_.targets[0].id.lower() and not isinstance(a_.value, ast.Constant)} | {p_ for p_ in cf.params if "ind" in p_.lower()}
+    for c_ in walk_own(cf.node):
+        if isinstance(c_, ast.Call) and norm(c_.func).endswith(("BGZFile", "open")):
+            for k_ in c_.keywords:
+                if k_.arg in ("index", "index_filename") and norm(k_.value) in idx_paths:
+                    ctx.violated("R10.4", cf.where(c_), f"`{norm(c_)[:70]}` makes the output handle write a file of its own to `{norm(k_.value)[:30]}`, the path of the sort index: it is written when the handle is closed, after the index was pickled there, and replaces it (the index can no longer be loaded)", key_of(cf, f"index-path-overwritten:{norm(k_.value)[:30]}"))
     paths = enum_paths(cf.node.body, rule="R10.4", where=cf.where())
     n = 0
     bad = None
